@@ -132,7 +132,7 @@ func matrixCases() int { return 2 * len(cells) }
 func init() {
 	vlib.Register(&vlib.Prop{
 		ID:    "C02",
-		Level: "exploration",
+		Level: "fault_enumeration",
 		Cases: func(tier string) int { return matrixCases() + vlib.TierN(tier, 2000, 50000) },
 		Rule: fmt.Sprintf("matrix part: %d cells = {%d handler behaviours: returns nil/empty/1/3 messages, error, error+1/3 messages, panic(string|error|nil), "+
 			"context.Canceled (bare/wrapped), Ack-then-{ok,ok+msg,err,err+msg,panic}, Nack-then-{ok,ok+1/3 msgs,err,err+msg,panic}, Ack-then-Nack} x {publisher: accept,error,panic(string),panic(nil)} x "+
